@@ -128,7 +128,9 @@ moduli!(
     2, 3, 4, 5, 6, 7, 8, 9, 10, 11, 12, 13, 14, 15, 16, 17, 18, 19, 20, 21, 22, 23, 24, 25, 26, 27, 28, 29, 30, 31, 32, 33, 34, 35, 36, 37, 38, 39, 40, 41,
     42, 43, 44, 45, 46, 47, 48, 49, 50, 51, 52, 53, 54, 55, 56, 57, 58, 59, 60, 61, 62, 63, 64, 97, 251, 256, 65521, 65536, 65537, 998244353, 1000000007,
     1000000009, 1073741824, 2147483647, 2147483646, 2147483645, 2147483629, 2147395600, 223092870, 2000000011, 1999999973, 1234567890, 1048576, 46341, 2147302921,
-    65, 81, 100, 121, 127, 128, 243, 255, 1009, 4099, 32768, 32771, 1000003, 16777216, 16777259, 536870912, 715827883, 1431655765, 2147483587, 2000000000
+    65, 81, 100, 121, 127, 128, 243, 255, 1009, 4099, 32768, 32771, 1000003, 16777216, 16777259, 536870912, 715827883, 1431655765, 2147483587, 2000000000,
+    // Carmichael numbers and strong pseudoprimes (to base 2; to bases 2,3; to bases 2,3,5): composites a primality shortcut takes for primes
+    561, 1105, 1729, 2465, 2821, 6601, 8911, 41041, 825265, 321197185, 2047, 3277, 4033, 4681, 8321, 1373653, 1530787, 25326001, 161304001, 960946321, 1157839381
 );
 
 const EXTREME_V: [i64; 12] = [i64::MIN, i64::MIN + 1, -1, 0, 1, i64::MAX - 1, i64::MAX, -(1 << 31), 1 << 31, -(1 << 32), 1 << 32, (1 << 62) + 12345];
@@ -154,8 +156,8 @@ fn case_for(m: u32) -> impl Strategy<Value = Case> {
 fn main() {
     let mut ctx = Ctx::init("C06");
     ctx.rule(
-        "Cases are (modulus M, operands x,y in [0,M), exponent e, constructor argument v). Moduli: every 2..=64 plus 42 larger ones (competition \
-         primes, powers of two up to 2^30, 2^31-1, 2^31-2, 2^31-3, 2^31-19, squares 46340^2 and 46339^2... composites), one monomorphic \
+        "Cases are (modulus M, operands x,y in [0,M), exponent e, constructor argument v). Moduli: every 2..=64 plus 63 larger ones (competition \
+         primes, Carmichael numbers and strong pseudoprimes to the bases 2, 3, 5, powers of two up to 2^30, 2^31-1, 2^31-2, 2^31-3, 2^31-19, squares 46340^2 and 46339^2... composites), one monomorphic \
          instantiation each. For M<=32 (quick) / M<=64 (thorough) all operand pairs are enumerated with all constructor arguments in \
          [-3M,3M] and the extreme i64 values and a fixed exponent set; other moduli get generated cases biased to {0,1,2,M-1,M-2,M/2,sqrt M}, \
          constructor args {MIN, MAX, kM+-1, +-2^31, +-2^32, random}, exponents {0,1,2,M-1,M,2^32,u64::MAX,random}. Oracle: i128/u128 \
@@ -184,6 +186,19 @@ fn main() {
             cases.chain(extra),
             dispatch,
         );
+    }
+    // the same representative inverted / divided by in one modulus after the other (state that is keyed by the value but shared by
+    // all instantiations, e.g. a static inside a generic function)
+    {
+        let mut inter = Vec::new();
+        for &v in &[2u32, 3, 5, 7, 10, 11, 13, 64, 97, 255, 1000, 4097, 65537, 1_000_003] {
+            for (k, &m) in MODULI.iter().enumerate() {
+                if v < m && gcd(v as u64, m as u64) == 1 {
+                    inter.push(Case { m, x: (k as u32 * 31 + 1) % m, y: v, e: 3, v: k as i64 - 40 });
+                }
+            }
+        }
+        ctx.exhaustive("one-divisor-through-all-moduli", "mint-case", "14 divisors, each inverted and divided by in every modulus it is coprime to, one modulus right after the other", false, inter, dispatch);
     }
     let per = ctx.n(2_000, 600_000);
     for &m in MODULI.iter().filter(|&&m| m > exh_limit) {
